@@ -92,9 +92,34 @@ def _random_mw(rng):
         else:
             v = {"parts": [[["F"], [], ["L"], []]] * rng.randint(0, 2)}
         fields.append([k, v])
+    if rng.random() < 0.25:
+        # the same name field twice (what a duplicate-field entry holds): each occurrence is split / merged on its own
+        fields.append([rng.choice(["author", "editor"]), {"s": "".join(rng.choice(ALPHABET + [" and "]) for _ in range(rng.randint(0, 7)))}])
     groups = rng.choice([[["separate"]], [["mergeCo"]], [["separate"], ["mergeCo"]], [["separate"], ["mergeCo"], ["separate"]],
                          [["mergeCo"], ["separate"]]])
     return {"kind": "mw", "fields": fields, "groups": groups, "inplace": rng.random() < 0.5}
+
+
+DOC_NAMES = ["A and\n B", "Alice Smith and\n   Bob~Jones", "A\nand B", "A and\r\nB", "{A and\n B} and C", "A\tand\tB", "A", "A and B and\n\nC",
+             " A and B ", "A  and  B"]
+
+
+def _doc_check(case):
+    """through the entry point: parse_string(document, append_middleware=[SeparateCoAuthors()]) - the default stack first
+    removes the enclosing of the value, which may run over several lines - gives exactly the pieces of the value's content"""
+    import bibtexparser
+    from bibtexparser import model as M
+    from bibtexparser.middlewares.names import SeparateCoAuthors, split_multiple_persons_names as split
+    names = case["names"]
+    text = "@a{k,\n author = %s%s%s,\n title = {T}\n}\n" % (case["enc"][0], names, case["enc"][1])
+    lib = bibtexparser.parse_string(text, append_middleware=[SeparateCoAuthors()])
+    if len(lib.blocks) != 1 or type(lib.blocks[0]) is not M.Entry:
+        return "parse_string(%r) gives %r" % (text, [type(b).__name__ for b in lib.blocks])
+    got = lib.blocks[0].fields[0].value
+    want = split(names)
+    if got != want:
+        return "parse_string(%r, append_middleware=[SeparateCoAuthors()]): author is %r, the pieces of the content are %r" % (text, got, want)
+    return None
 
 
 def gen(tier, rng):
@@ -116,9 +141,14 @@ def gen(tier, rng):
         yield {"t": _random_list(rng)}
     for _ in range(1500 if tier == "quick" else 15000):
         yield _random_mw(rng)
+    for names in DOC_NAMES:
+        for e in ("{}", '""'):
+            yield {"kind": "doc", "names": names, "enc": e, "t": names}
 
 
 def request(case):
+    if case.get("kind") == "doc":
+        return None      # python-only: evaluated on the real code (impl raises when it fails)
     if case.get("kind") == "mw":
         text = "".join(U.value_text(v) for _k, v in case["fields"])
         if not lean_representable(text):
@@ -134,6 +164,11 @@ def request(case):
 
 
 def impl(case):
+    if case.get("kind") == "doc":
+        f = _doc_check(case)
+        if f:
+            raise AssertionError(f)
+        return "(ok doc)"
     if case.get("kind") == "mw":
         return enc(U.run_groups(U.make_entry(case["fields"]), case["groups"], case.get("inplace", True)))
     from bibtexparser.middlewares.names import split_multiple_persons_names
@@ -145,6 +180,8 @@ def oracle(case):
     from bibtexparser.middlewares.names import split_multiple_persons_names as split
     if case.get("kind") == "mw":
         return _oracle_mw(case)
+    if case.get("kind") == "doc":
+        return _doc_check(case)
     s = case["t"]
     if case.get("kind") == "ref":
         want = U.ref_split(s)
